@@ -152,9 +152,21 @@ def c16_stale_required_repaired(failure):
         and isinstance(o.get('with'), str) and o['with'].lstrip().startswith('<')
 
 
+# ops that neither detach a child nor exchange one: after them a twice-added child's single back-pointer is never consulted
+_SHARE_SAFE_OPS = ('add', 'add_fwd', 'add_again', 'add_nested', 'to_string', 'set_attr', 'set_attr_none', 'set_value')
+
+
 def history_shares_child_object(failure):
-    """the history hands one child OBJECT to two parents or twice to the same parent (ops share_out / add_again)"""
-    return any(op and op[0] in ('share_out', 'add_again') for op in failure['input'].get('ops', []))
+    """the history hands one child OBJECT to two parents (share_out), or twice to the same parent (add_again) AND
+    later detaches / exchanges / dot-assigns something - the operations that go through the child's single
+    back-pointer.  A history that only keeps adding (and serialising) after an add_again is not this finding."""
+    ops = [op for op in failure['input'].get('ops', []) if op]
+    if any(op[0] == 'share_out' for op in ops):
+        return True
+    for i, op in enumerate(ops):
+        if op[0] == 'add_again':
+            return any(o[0] not in _SHARE_SAFE_OPS for o in ops[i + 1:])
+    return False
 
 
 _C11_STALE = None
